@@ -596,6 +596,167 @@ FOOTER_COMPL = """Definition src_complement_int_list (range_string : text) (rang
 """
 
 
+# ---------------------------------------------------------------------------------- int_ranges_from_int_list
+def _const_char(e):
+    return isinstance(e, ast.Constant) and isinstance(e.value, str) and len(e.value) == 1
+
+
+def normalise_ranges(node):
+    """range_string = format_int_list(parse_int_list(range_string, delim, range_delim)): the parse is performed by
+    the wrapper (it may raise), the format call with the default delimiters becomes __fmt_default(int_list)."""
+    body = node.body
+    doc = []
+    if body and isinstance(body[0], ast.Expr) and isinstance(body[0].value, ast.Constant):
+        doc, body = [body[0]], body[1:]
+    if any(isinstance(n, (ast.While, ast.Try, ast.With, ast.Raise, ast.Yield, ast.Break, ast.Continue)) for n in ast.walk(node)):
+        raise U("unexpected control flow in int_ranges_from_int_list")
+    idx = None
+    for i, s in enumerate(body):
+        if isinstance(s, ast.Assign) and len(s.targets) == 1 and _is_name(s.targets[0], "range_string"):
+            v = s.value
+            ok = (isinstance(v, ast.Call) and _is_name(v.func, "format_int_list") and len(v.args) == 1 and not v.keywords
+                  and isinstance(v.args[0], ast.Call) and _is_name(v.args[0].func, "parse_int_list")
+                  and [a.id if isinstance(a, ast.Name) else None for a in v.args[0].args] == ["range_string", "delim", "range_delim"]
+                  and not v.args[0].keywords)
+            if not ok or idx is not None:
+                raise U("normalising assignment of int_ranges_from_int_list")
+            idx = i
+    if idx is None:
+        raise U("normalising assignment not found")
+    for s in body[:idx]:
+        if any(_is_name(n, "range_string") for n in ast.walk(s)):
+            raise U("range_string used before it is normalised")
+    body[idx] = ast.Assign(targets=[ast.Name(id="range_string", ctx=ast.Store())],
+                           value=ast.Call(func=ast.Name(id="__fmt_default", ctx=ast.Load()),
+                                          args=[ast.Name(id="int_list", ctx=ast.Load())], keywords=[]))
+
+    class R(ast.NodeTransformer):
+        def visit_Compare(self, c):
+            if len(c.ops) == 1 and isinstance(c.ops[0], ast.In) and _const_char(c.left) and _is_name(c.comparators[0]):
+                return ast.Call(func=ast.Name(id="__mem", ctx=ast.Load()), args=[c.left, c.comparators[0]], keywords=[])
+            raise U("comparison of an unknown shape in int_ranges_from_int_list")
+
+        def visit_For(self, f):
+            it = f.iter
+            if not (_method_call(it, "split", 1) and _const_char(it.args[0]) and _is_name(it.func.value)):
+                raise U("loop source of int_ranges_from_int_list")
+            f.iter = ast.Call(func=ast.Name(id="__split1", ctx=ast.Load()), args=[it.args[0], it.func.value], keywords=[])
+            f.body = [self.visit(s) for s in f.body]
+            if f.orelse:
+                raise U("for-else")
+            return f
+    body = [R().visit(s) for s in body]
+    last = body[-1]
+    if not (isinstance(last, ast.Return) and isinstance(last.value, ast.Call) and _is_name(last.value.func, "tuple")
+            and len(last.value.args) == 1 and _is_name(last.value.args[0], "int_tuples")) \
+            or sum(isinstance(n, ast.Return) for n in ast.walk(node)) != 1:
+        raise U("int_ranges_from_int_list must end in  return tuple(int_tuples)")
+    body[-1] = ast.Return(value=ast.Tuple(elts=[ast.Name(id="err", ctx=ast.Load()),
+                                                ast.Name(id="int_tuples", ctx=ast.Load())], ctx=ast.Load()))
+    node.body = doc + body
+    for a in node.args.args:
+        if a.arg == "range_string":
+            a.arg = "int_list"
+    ast.fix_missing_locations(node)
+    return node
+
+
+def _char_call(name):
+    def render(T, e, scope):
+        if len(e.args) != 2 or not _const_char(e.args[0]) or not _is_name(e.args[1]) or e.args[1].id not in scope:
+            raise U("call of %s" % name)
+        return "(%s %d%%N %s)" % (name, ord(e.args[0].value), e.args[1].id)
+    return render
+
+
+def _call_fmt_default(T, e, scope):
+    # format_int_list(ints): delimiters = the defaults of format_int_list (checked by its own translation)
+    return "(format_int_list [44%%N] [45%%N] %s false)" % T.expr(e.args[0], scope)
+
+
+def shape_unpack_split(T, s, probe, scope=None):
+    """start, end = bounds.split('-')      (raises ValueError unless exactly two pieces)"""
+    if not (isinstance(s, ast.Assign) and len(s.targets) == 1 and isinstance(s.targets[0], ast.Tuple)
+            and _method_call(s.value, "split", 1)):
+        return None
+    t = s.targets[0]
+    if not (len(t.elts) == 2 and all(isinstance(x, ast.Name) for x in t.elts) and _const_char(s.value.args[0])
+            and _is_name(s.value.func.value)):
+        raise U("unpacking of an unknown shape")
+    a, b = [py2coq.cname(x.id) for x in t.elts]
+    if probe:
+        return ["err", t.elts[0].id, t.elts[1].id]
+    src = s.value.func.value.id
+    if src not in scope or t.elts[0].id not in scope or t.elts[1].id not in scope:
+        raise U("names of the unpacking must be pre-bound")
+    return ("let '(err, %s, %s) :=\n"
+            "      match err with\n"
+            "      | Some _ => (err, %s, %s)\n"
+            "      | None => match split1 %d%%N %s with\n"
+            "                | [p; q] => (None, p, q)\n"
+            "                | _ => (Some ValueError, %s, %s)\n"
+            "                end\n"
+            "      end in\n" % (a, b, a, b, ord(s.value.args[0].value), src, a, b))
+
+
+def shape_append_int_pair(T, s, probe, scope=None):
+    """int_tuples.append((int(start), int(end)))      (may raise, left to right)"""
+    if not (isinstance(s, ast.Expr) and _method_call(s.value, "append", 1) and _is_name(s.value.func.value, "int_tuples")):
+        return None
+    a = s.value.args[0]
+    ok = (isinstance(a, ast.Tuple) and len(a.elts) == 2 and
+          all(isinstance(x, ast.Call) and _is_name(x.func, "int") and len(x.args) == 1 and _is_name(x.args[0]) and not x.keywords
+              for x in a.elts))
+    if not ok:
+        raise U("int_tuples.append of an unknown shape")
+    if probe:
+        return ["err", "int_tuples"]
+    p, q = [py2coq.cname(x.args[0].id) for x in a.elts]
+    for x in a.elts:
+        if x.args[0].id not in scope:
+            raise U("unbound name")
+    return ("let '(err, int_tuples) :=\n"
+            "      match err with\n"
+            "      | Some _ => (err, int_tuples)\n"
+            "      | None => match py_int %s with\n"
+            "                | Raise e => (Some e, int_tuples)\n"
+            "                | Ok v1 => match py_int %s with\n"
+            "                           | Raise e => (Some e, int_tuples)\n"
+            "                           | Ok v2 => (None, int_tuples ++ [(v1, v2)])\n"
+            "                           end\n"
+            "                end\n"
+            "      end in\n" % (p, q))
+
+
+CFG_RANGES = {
+    "name": "src_int_ranges_tail",
+    "params": [("int_list", "list Z"), ("delim", "text"), ("range_delim", "text")],
+    "defaults": {"delim": "','", "range_delim": "'-'"},
+    "ret": "(option exn * list (Z * Z))", "num": "Z",
+    "kinds": {"int_list": "listZ", "delim": "text", "range_delim": "text", "range_string": "text", "bounds": "text",
+              "start": "text", "end": "text", "int_tuples": "list", "err": "err"},
+    "calls": {"__fmt_default": (_call_fmt_default, "text"), "__mem": (_char_call("memN"), "bool"),
+              "__split1": (_char_call("split1"), "list")},
+    "truthy": {"text": "src_nonempty"},
+    "prebind": {"err": "(None : option exn)", "start": "([] : text)", "end": "([] : text)", "range_string": "([] : text)"},
+    "shapes": [shape_unpack_split, shape_append_int_pair],
+}
+
+HEADER_RANGES = """
+(* ---- int_ranges_from_int_list: after the parse (performed by the wrapper); err = first exception ---- *)
+"""
+
+FOOTER_RANGES = """Definition src_int_ranges_from_int_list (range_string delim range_delim : text) : res (list (Z * Z)) :=
+  match src_parse_int_list range_string delim range_delim with
+  | Raise e => Raise e
+  | Ok ints => match src_int_ranges_tail ints delim range_delim with
+               | (Some e, _) => Raise e
+               | (None, l) => Ok l
+               end
+  end.
+"""
+
+
 CFG = {
     "name": "src_format_int_list",
     "params": [("int_list", "list Z"), ("delim", "text"), ("range_delim", "text"), ("delim_space", "bool")],
@@ -635,7 +796,9 @@ def generate(repo):
             + HEADER_PARSE + py2coq.Translator(dict(CFG_PARSE)).function(
                 normalise_parse(py2coq.get_function(path, "parse_int_list"))) + FOOTER_PARSE
             + HEADER_COMPL + py2coq.Translator(dict(CFG_COMPL)).function(
-                normalise_compl(py2coq.get_function(path, "complement_int_list"))) + FOOTER_COMPL}
+                normalise_compl(py2coq.get_function(path, "complement_int_list"))) + FOOTER_COMPL
+            + HEADER_RANGES + py2coq.Translator(dict(CFG_RANGES)).function(
+                normalise_ranges(py2coq.get_function(path, "int_ranges_from_int_list"))) + FOOTER_RANGES}
 
 
 if __name__ == "__main__":
